@@ -20,9 +20,11 @@ func zzField() Field {
 	}
 }
 
-func zzSameCanvas(seq, par *MarchingCanvas, tag string) {
-	ss, ok1 := seq.sections["f"]
-	ps, ok2 := par.sections["f"]
+func zzSameCanvas(seq, par *MarchingCanvas, tag string) { zzSameCanvasAttr(seq, par, "f", tag) }
+
+func zzSameCanvasAttr(seq, par *MarchingCanvas, attr string, tag string) {
+	ss, ok1 := seq.sections[attr]
+	ps, ok2 := par.sections[attr]
 	zz.Assert(ok1 && ok2, tag+": the attribute exists in both canvases")
 	if !ok1 || !ok2 {
 		return
@@ -69,4 +71,18 @@ func ZZ_C10_AddFieldParallel2() {
 	par.AddFieldParallel2(f)
 	zz.Reach("parallel")
 	zzSameCanvas(seq, par, "AddFieldParallel2")
+}
+
+// a field with two scalar attributes: twice as many jobs as blocks
+func ZZ_C10_AddFieldParallelTwoAttributes() {
+	f := zzField()
+	k := zz.Float64("k")
+	f.Float1Functions["g"] = func(v vector3.Float64) float64 { return k*v.X() - v.Z() }
+	seq, par := NewMarchingCanvas(1), NewMarchingCanvas(1)
+	seq.AddField(f)
+	zz.Reach("sequential")
+	par.AddFieldParallel(f)
+	zz.Reach("parallel")
+	zzSameCanvasAttr(seq, par, "f", "AddFieldParallel (two attributes, f)")
+	zzSameCanvasAttr(seq, par, "g", "AddFieldParallel (two attributes, g)")
 }
